@@ -85,7 +85,11 @@ def check(c):
         c.guard_only('C45.replay', n, [
             'itask.tdef.has_abs_triggers',
             'itask.state.prerequisites_are_not_all_satisfied()',
-            '!itask.transient'], st, stop=_nt_block(c, n))
+            '!itask.transient',
+            # a task with a prerequisite beyond the stop point is not
+            # spawned at all (early `return None`, loop or any() form)
+            'self.stop_point', 'itask.point <= self.stop_point',
+            'any(_)'], st, stop=_nt_block(c, n))
         arg = n.args[0]
         ok = (isinstance(arg, ast.ListComp) and norm(
             arg.generators[0].iter) == 'self.abs_outputs_done'
